@@ -54,6 +54,38 @@ ORIGEN = [("area", re.compile(r"^Área de referencia \((\w+)\) \[m2\]: (\S+)", r
           ("fp", re.compile(r"^Factores de paso \((\w+)\): (.*)$", re.M))]
 
 
+def project_value(v):
+    """a metadata value as [kind, n, t, tri]: a number in thousandths, a triple of thousandths (the three spellings
+    of RenNrenCo2), or the text itself"""
+    v = v.strip()
+    def num(x):
+        m = milli(x)
+        if m is None or abs(m) > 2000000000:
+            raise ValueError(x)
+        return m
+    try:
+        return {"kind": "num", "n": num(v), "t": "", "tri": []}
+    except (ValueError, OverflowError):
+        pass
+    parts = [x.split(":")[-1].strip() for x in v.strip("(){} ").split(",")]
+    if len(parts) == 3:
+        try:
+            return {"kind": "triple", "n": 0, "t": "", "tri": [num(x) for x in parts]}
+        except (ValueError, OverflowError):
+            pass
+    return {"kind": "text", "n": 0, "t": v, "tri": []}
+
+
+def meta_block(text):
+    """the #META lines of a text, in order, as [key, projected value] (key and value cut at the first colon)"""
+    out = []
+    for line in text.splitlines():
+        m = re.match(r"#META\s*([^:]*):(.*)$", line.strip())
+        if m:
+            out.append([m.group(1).strip(), project_value(m.group(2))])
+    return out
+
+
 def observe(res, d, fpath=None):
     """projection of a finished run: origin lines, --json and --oc extracts"""
     o = {"exit": res["exit"] if isinstance(res["exit"], int) else -1, "how": str(res["exit"]),
@@ -86,6 +118,7 @@ def observe(res, d, fpath=None):
             o["json"] = {"valid": False, "error": str(ex)[:100]}
     op = os.path.join(d, "out.csv")
     if os.path.exists(op):
+        o["oc_block"] = meta_block(open(op, encoding="utf-8", errors="replace").read())
         for line in open(op, encoding="utf-8", errors="replace"):
             m = re.match(r"#META\s+(\w+):\s*(.*)$", line.strip())
             if m:
@@ -134,6 +167,11 @@ def c19_case(rec, root):
         meta.append("#META CTE_RED1: " + (r1v if c["r1meta"] == "valid" else "bad"))
     if c["r2meta"] != "absent":
         meta.append("#META CTE_RED2: " + (r2v if c["r2meta"] == "valid" else "bad"))
+    # metadata the program has no use for - a free key first, and in some files a second CTE_KEXP line after the
+    # others (the first one is the one that counts): both stay where they are in the emitted components
+    meta.insert(0, "#META Nombre: edificio 7")
+    if c["kmeta"] != "absent" and rec.get("case", 0) % 4 == 0:
+        meta.append("#META CTE_KEXP: 0.9")
     # spelling of the metadata lines: the blanks around the key, the colon and the value are free
     sv = (rec.get("case", 0) // 27) % 3
     if sv == 1:
@@ -163,14 +201,18 @@ def c19_case(rec, root):
         argv += ["--arearef=" + V["a"][c["aopt"]]]
     if c["kopt"] != "absent":
         argv += ["--kexp=" + V["k"][c["kopt"]]]
-    if c["r1opt"] != "absent":
+    if c["r1opt"] == "default":
+        argv += ["--red1"] + [["0", "1.3", "0.3"], ["0.0", "1.30", "0.300"]][rec.get("case", 0) % 2]      # the documented default, given explicitly
+    elif c["r1opt"] != "absent":
         argv += ["--red1", "0.1", "1.1" if c["r1opt"] == "valid" else ["x", "NaN", ""][rec.get("case", 0) % 3], "0.11"]
-    if c["r2opt"] != "absent":
+    if c["r2opt"] == "default":
+        argv += ["--red2"] + [["0.0", "1.30", "0.300"], ["0", "1.3", "0.3"]][rec.get("case", 0) % 2]
+    elif c["r2opt"] != "absent":
         argv += ["--red2", "0.15", "1.15" if c["r2opt"] == "valid" else ["nan", "", "x"][rec.get("case", 0) % 3], "0.115"]
     if c.get("verbose"):
         argv += ["-" + "v" * int(c["verbose"])]
     res = run_proc(argv, d)
-    ev = {"ev": "Cli", "case": rec["case"], "tag": "cli", "cfg": c, "argv": argv, "obs": observe(res, d, fpath)}
+    ev = {"ev": "Cli", "case": rec["case"], "tag": "cli", "cfg": c, "argv": argv, "obs": observe(res, d, fpath), "meta_in": meta_block(text)}
     shutil.rmtree(d, ignore_errors=True)
     return ev
 
@@ -251,6 +293,10 @@ GASNATURAL, RED, SUMINISTRO, A, 0.005, 1.190, 0.252
 """
 
 
+STALE_MARK = "documento-de-una-ejecucion-anterior"
+STALE_DOC = ("# %s\n" % STALE_MARK) * 8000          # some 300 kB: longer than any document of the small building
+
+
 def prog_case(rec, root):
     """realises one configuration of spec/Program.tla (inputs present / missing / a directory / empty / not a
     components file; factor source; each output absent / writable / in a directory that does not exist; flags),
@@ -289,6 +335,10 @@ def prog_case(rec, root):
         st = c["out"][o]
         if st == "ok":
             argv += ["--" + o, names[o]]
+        elif st == "over":
+            # the path already holds a document of an earlier run, longer than anything this run writes
+            open(os.path.join(d, names[o]), "w").write(STALE_DOC)
+            argv += ["--" + o, names[o]]
         elif st == "nodir":
             argv += ["--" + o, os.path.join("no-such-dir", names[o])]
     if c["license"]:
@@ -298,9 +348,16 @@ def prog_case(rec, root):
     if c["v"]:
         argv += ["-" + "v" * int(c["v"])]
     res = run_proc(argv, d)
-    written = [o for o in names if os.path.exists(os.path.join(d, names[o]))]
+    def content(o):
+        try:
+            return open(os.path.join(d, names[o]), encoding="utf-8", errors="replace").read()
+        except OSError:
+            return None
+    # written: the file exists and is not the document the path held before; stale: the mark of that document is found in it
+    written = [o for o in names if content(o) is not None and content(o) != (STALE_DOC if c["out"][o] == "over" else None)]
+    stale = [o for o in names if content(o) is not None and STALE_MARK in content(o)]
     ev = {"ev": "Prog", "case": rec["case"], "tag": "cli", "cfg": c, "argv": argv, "how": str(res["exit"]),
           "stderr_empty": res["stderr"].strip() == "", "stderr_head": res["stderr"].strip()[:80],
-          "written": written, "printed": "C_ep [kWh/m2.an]" in res["stdout"]}
+          "written": written, "stale": stale, "printed": "C_ep [kWh/m2.an]" in res["stdout"]}
     shutil.rmtree(d, ignore_errors=True)
     return ev
